@@ -130,7 +130,11 @@ pub proof fn lemma_mod_step(l0: int, lz: int, a: int)
 {
     vstd::arithmetic::div_mod::lemma_fundamental_div_mod(l0, lz);
     if (l0 % lz) + a < lz { vstd::arithmetic::div_mod::lemma_fundamental_div_mod_converse(l0 + a, lz, l0 / lz, (l0 % lz) + a); }
-    else { vstd::arithmetic::div_mod::lemma_fundamental_div_mod_converse(l0 + a, lz, l0 / lz + 1, 0); }
+    else {
+        let q = l0 / lz;
+        assert(lz * (q + 1) == lz * q + lz) by (nonlinear_arith);
+        vstd::arithmetic::div_mod::lemma_fundamental_div_mod_converse(l0 + a, lz, q + 1, 0);
+    }
 }
 pub open spec fn first_op(e: ScheduleEntry) -> int { match e { ScheduleEntry::Op(i) => i as int, ScheduleEntry::PackedHorner(i, _) => i as int, ScheduleEntry::Separator => 0 } }
 pub open spec fn last_op(e: ScheduleEntry) -> int { match e { ScheduleEntry::Op(i) => i as int, ScheduleEntry::PackedHorner(i, k) => i + k - 1, ScheduleEntry::Separator => 0 } }
@@ -152,6 +156,7 @@ def build():
     u.text(PRELUDE)
     u.text(gen_views())
     u.text(SPEC)
+    u.text(open(os.path.join(HERE, 'sched_spec.rs')).read())
     A = 'circuit-prover/src/air/alu_air.rs'
     IMPL = r'impl<F: Field \+ PrimeCharacteristicRing \+ Copy, const D: usize> AluAir<F, D>'
 
@@ -191,11 +196,11 @@ def stage2(u, cs, fr, A, IMPL):
     fl.set_sig('R6', 'fn fill_row(schedule: &mut Vec<ScheduleEntry>, nc: &mut usize, non_chain: &Vec<usize>, lanes: usize)', sliced=True)
     fl.rewrite_re('R6', r'!schedule\.len\(\)\.is_multiple_of\(lanes\)', 'schedule.len() % lanes != 0')
     fl.rewrite_re('R6', r'\*nc \+= 1;', '*nc = *nc + 1;')
-    fl.requires('geometry', 'lanes >= 1 && *old(nc) <= non_chain@.len() && old(schedule)@.len() < 0x1_0000_0000_0000')
+    fl.requires('geometry', 'lanes >= 1 && *old(nc) <= non_chain@.len()')
     fl.ensures('completes_the_row_with_pending_ops_then_separators', 'filled(old(schedule)@, final(schedule)@, *old(nc) as int, *final(nc) as int, non_chain@, lanes as int)')
     fl.at_start('let ghost l0 = schedule@.len() as int; let ghost lz = lanes as int; let ghost r0 = l0 % lz; let ghost n0 = *nc as int; proof { lemma_mod_step(l0, lz, 0); }')
     fl.loop('while schedule.len() % lanes != 0', invariants=[
-        ('ctx', 'lz == lanes && lz >= 1 && l0 == old(schedule)@.len() && r0 == l0 % lz && n0 == *old(nc) && n0 <= non_chain@.len() && l0 < 0x1_0000_0000_0000'),
+        ('ctx', 'lz == lanes && lz >= 1 && l0 == old(schedule)@.len() && r0 == l0 % lz && n0 == *old(nc) && n0 <= non_chain@.len()'),
         ('row', 'l0 <= schedule@.len() && r0 + (schedule@.len() - l0) <= lz && (schedule@.len() > l0 ==> r0 > 0)'),
         ('prefix', 'schedule@.subrange(0, l0) == old(schedule)@'),
         ('appended', 'forall|p: int| l0 <= p < schedule@.len() ==> (#[trigger] schedule@[p]) == fill_entry(non_chain@, n0, p - l0)'),
@@ -218,18 +223,215 @@ pub fn min_(a: usize, b: usize) -> (r: usize) ensures r == (if a <= b { a as int
 
 def stage3(u, cs, A, IMPL):
     sb = u.extract(A, IMPL, 'horner_ops_share_b_idx', 'AluAir::horner_ops_share_b_idx')
-    sb.set_sig('R11', 'fn horner_ops_share_b_idx(preprocessed: &[Fe], plw: usize, op_indices: &[usize]) -> bool')
-    u.fns.remove(sb)   # not brought under contract in this stage: assumed stub below
-    u.text('''verus! {
-/// ASSUMED (stage 1): all listed operations read the same `b` index
+    u.fns.remove(sb)   # not brought under contract: assumed stub below (its iterator chain is outside the normaliser)
+    u.text("""verus! {
+/// ASSUMED: all listed operations read the same `b` index (horner_ops_share_b_idx over chain[i..i+k])
 #[verifier::external_body]
 pub fn horner_ops_share_b_idx(preprocessed: &[Fe], plw: usize, chain: &Vec<usize>, i: usize, k: usize) -> (r: bool)
     requires i + k <= chain@.len()
-    ensures r == forall|j: int| 0 <= j < k ==> #[trigger] b_of(preprocessed@, chain@[i + j] as int) == b_of(preprocessed@, chain@[i as int] as int)
+    ensures r == forall|p: int| i <= p < i + k ==> b_of(preprocessed@, (#[trigger] chain@[p]) as int) == b_of(preprocessed@, chain@[i as int] as int)
 { unimplemented!() }
-}''')
+}""")
+    PRE = 'preprocessed@'
     cs.requires('geometry', 'lanes >= 1 && pack_k >= 1 && preprocessed@.len() < 0x1_0000_0000')
-    u.text('verus! {')
+    cs.ensures('none_iff_no_horner_op', f'ret is None <==> forall|i: int| 0 <= i < n_ops({PRE}) ==> !is_h({PRE}, i)')
+    cs.ensures('every_op_placed_exactly_once_in_order', f'ret matches Some(s) ==> chain_ops({PRE}, s@) == hs_upto({PRE}, n_ops({PRE})) && other_ops({PRE}, s@) == os_upto({PRE}, n_ops({PRE}))')
+    cs.ensures('full_rows', 'ret matches Some(s) ==> s@.len() % (lanes as nat) == 0')
+    cs.ensures('horner_steps_in_lane_0', f'ret matches Some(s) ==> lane0_discipline({PRE}, s@, lanes as int)')
+    cs.ensures('packed_entries_contiguous_same_b_at_most_pack_k', f'ret matches Some(s) ==> packs_ok({PRE}, s@, pack_k as int)')
+    cs.ensures('consecutive_lane0_horner_rows_continue_one_chain_and_row0_is_a_separator', f'ret matches Some(s) ==> rows_chain_ok({PRE}, s@, lanes as int)')
+
+    cs.at_start('let ghost pre = preprocessed@; let ghost nn = n_ops(pre); let ghost lz = lanes as int; let ghost pk = pack_k as int;')
+    # L1: the Horner flag of every operation
+    cs.loop('for i in 0..num_ops', invariants=[
+        ('flags', 'preprocessed@.len() < 0x1_0000_0000 && pre == preprocessed@ && plw == NPREP && num_ops == nn && nn == n_ops(pre) && num_ops * NPREP <= preprocessed@.len() && v_@.len() == i && forall|q: int| 0 <= q < i ==> #[trigger] v_@[q] == is_h(pre, q)')])
+    cs.before('let prep = borrow_prep(', """proof {
+                    assert((i + 1) * NPREP <= num_ops * NPREP) by (nonlinear_arith) requires i < num_ops;
+                    assert((i + 1) * NPREP == i * NPREP + NPREP) by (nonlinear_arith);
+                    assert(0 <= i * NPREP) by (nonlinear_arith) requires i >= 0;
+                }""")
+    cs.before('let is_horner: Vec<bool>', """proof {
+            vstd::arithmetic::div_mod::lemma_fundamental_div_mod(preprocessed@.len() as int, NPREP);
+            assert(num_ops * NPREP <= preprocessed@.len());
+        }""")
+    return stage4(u, cs)
+
+
+
+def stage4(u, cs):
+    CTX = 'pre == preprocessed@ && nn == n_ops(pre) && plw == NPREP && lz == lanes && lz >= 1 && pk == pack_k && pk >= 1 && nn < 0x1_0000_0000 && is_horner@.len() == nn && (forall|q: int| 0 <= q < nn ==> #[trigger] is_horner@[q] == is_h(pre, q))'
+    cs.before('return None;', 'proof { assert forall|i: int| 0 <= i < n_ops(pre) implies !is_h(pre, i) by { assert(is_horner@[i] == is_h(pre, i)); assert(!is_horner@[i]); } }', nth=1)
+    cs.after('return None; }', """let ghost w_ = choose|i: int| 0 <= i < is_horner@.len() && is_horner@[i];
+        proof {
+            vstd::arithmetic::div_mod::lemma_fundamental_div_mod(preprocessed@.len() as int, NPREP);
+            assert(nn < 0x1_0000_0000);
+            assert(is_horner@.len() == nn);
+            assert(is_h(pre, w_) && 0 <= w_ < nn);
+        }""", nth=1)
+    # L2: split into chains (maximal runs) and the other operations
+    cs.loop('for i in 0..is_horner.len()', invariants=[
+        ('ctx', CTX),
+        ('horner_ops_so_far', 'flat(chains@) + ints(current_chain@) == hs_upto(pre, i as int)'),
+        ('other_ops_so_far', 'ints(non_chain@) == os_upto(pre, i as int)'),
+        ('chains_are_runs', 'forall|c: int| 0 <= c < chains@.len() ==> run_ok(pre, (#[trigger] chains@[c])@)'),
+        ('open_run', 'current_chain@.len() > 0 ==> (current_chain@[current_chain@.len() - 1] == i - 1 && forall|j: int| 0 <= j < current_chain@.len() ==> (#[trigger] current_chain@[j]) == current_chain@[0] + j && is_h(pre, current_chain@[j] as int) && current_chain@[j] < nn)'),
+    ])
+    cs.before('if h { current_chain.push(i);', 'let ghost ch0 = chains@; let ghost cc0 = current_chain@; let ghost nc0 = non_chain@;')
+    cs.at_loop_end('for i in 0..is_horner.len()', """proof {
+                if h {
+                    assert(ints(current_chain@) =~= ints(cc0).push(i as int));
+                    assert(flat(chains@) + ints(current_chain@) =~= (flat(ch0) + ints(cc0)).push(i as int));
+                    assert(ints(non_chain@) =~= ints(nc0));
+                } else {
+                    assert(ints(non_chain@) =~= ints(nc0).push(i as int));
+                    if cc0.len() > 0 {
+                        assert(chains@ =~= ch0.push(chains@[chains@.len() - 1]));
+                        lemma_flat_push(ch0, chains@[chains@.len() - 1]);
+                        assert(chains@[chains@.len() - 1]@ == cc0);
+                        assert(flat(chains@) + ints(current_chain@) =~= flat(ch0) + ints(cc0));
+                        assert forall|c: int| 0 <= c < chains@.len() implies run_ok(pre, (#[trigger] chains@[c])@) by { if c < ch0.len() { assert(chains@[c] == ch0[c]); } }
+                    } else {
+                        assert(flat(chains@) + ints(current_chain@) =~= flat(ch0) + ints(cc0));
+                    }
+                }
+            }""")
+    cs.before('let mut schedule: Vec<ScheduleEntry> = Vec::new();', """proof {
+            // after the last run is closed: the chains hold exactly the Horner operations, non_chain exactly the others
+            lemma_hs_props(pre, nn);
+            assert(forall|q: int| 0 <= q < non_chain@.len() ==> ints(non_chain@)[q] == non_chain@[q]);
+            assert(all_other(pre, non_chain@)) by {
+                assert forall|q: int| 0 <= q < non_chain@.len() implies !is_h(pre, (#[trigger] non_chain@[q]) as int) && non_chain@[q] < n_ops(pre) by { assert(ints(non_chain@)[q] == os_upto(pre, nn)[q]); }
+            }
+        }""")
+    cs.before('if !current_chain.is_empty() { chains.push(current_chain); }', 'let ghost ch1 = chains@; let ghost cc1 = current_chain@;')
+    cs.after('if !current_chain.is_empty() { chains.push(current_chain); }', """proof {
+            if cc1.len() > 0 {
+                assert(chains@ =~= ch1.push(chains@[chains@.len() - 1]));
+                lemma_flat_push(ch1, chains@[chains@.len() - 1]);
+                assert forall|c: int| 0 <= c < chains@.len() implies run_ok(pre, (#[trigger] chains@[c])@) by { if c < ch1.len() { assert(chains@[c] == ch1[c]); } }
+            } else {
+                assert(flat(ch1) + ints(cc1) =~= flat(ch1));
+            }
+            assert(flat(chains@) == hs_upto(pre, nn));
+        }""")
+    return stage5(u, cs, CTX)
+
+
+def stage5(u, cs, CTX):
+    SCTX = (CTX + ' && all_other(pre, non_chain@) && ints(non_chain@) == os_upto(pre, nn) && flat(chains@) == hs_upto(pre, nn) && (forall|c: int| 0 <= c < chains@.len() ==> run_ok(pre, (#[trigger] chains@[c])@))'
+            ' && nc <= non_chain@.len() && non_chain@.len() <= nn')
+    BOOK = ('other_ops(pre, schedule@) == ints(non_chain@).take(nc as int)'
+            ' && lane0_discipline(pre, schedule@, lz) && packs_ok(pre, schedule@, pk) && rows_chain_ok(pre, schedule@, lz) && schedule@.len() > 0')
+    ROW = 'schedule@.len() % (lanes as nat) == 0 && schedule@.len() >= lz'
+    FILL = """let ghost s_f0 = schedule@; let ghost n_f0 = nc as int;"""
+    def after_fill(extra=''):
+        return """proof {
+                lemma_fill(pre, s_f0, schedule@, n_f0, nc as int, non_chain@, lz, pk);
+                assert(ints(non_chain@).take(n_f0) + ints(non_chain@).subrange(n_f0, nc as int) =~= ints(non_chain@).take(nc as int));
+                """ + extra + """
+            }"""
+    # ---- prologue: separator row
+    cs.after('let mut nc = 0;', """proof {
+            lemma_hs_props(pre, nn);
+            assert(non_chain@.len() <= nn) by { lemma_os_len(pre, nn); }
+            assert(ints(non_chain@).take(0) =~= Seq::<int>::empty());
+            assert(Seq::<int>::empty() + Seq::<int>::empty() =~= Seq::<int>::empty());
+        }""")
+    # every fill_row call (however many there are) gets a ghost snapshot before and the bookkeeping lemma after;
+    # the call inside the per-chain `while i` loop additionally closes the proof step of the Horner entry pushed just before it
+    calls = [m.start() for m in re.finditer(r'fill_row\(&mut schedule, &mut nc, &non_chain, lanes\);', cs.body)]
+    wi = cs._loop_open('while i')
+    wi_end = match_brace(cs.body, wi)
+    GEN = 'if s_f0.len() >= 1 && (s_f0.len() - 1) % lz == 0 { assert(last_lane0(schedule@, lz) == s_f0[s_f0.len() - 1]); }'
+    for st in reversed(calls):
+        en = st + len('fill_row(&mut schedule, &mut nc, &non_chain, lanes);')
+        pre_ = 'proof {\n assert(schedule@ =~= s_p.push(e_new)); // @@A:one_horner_entry_pushed_for_the_ops_consumed\n assert(last_op(e_new) == chain@[i - 1]); // @@A:cursor_advances_past_the_entry\n } ' if wi < st < wi_end else ''
+        cs.body = cs.body[:st] + pre_ + FILL + ' ' + cs.body[st:en] + ' ' + after_fill(GEN) + cs.body[en:]
+        cs.spec_inserts += 1
+    # every separator push: a separator is no Horner entry
+    seps = [m.start() for m in re.finditer(r'schedule\.push\(ScheduleEntry::Separator\);', cs.body)]
+    for st in reversed(seps):
+        cs.body = (cs.body[:st] + 'proof { lemma_push_plain(pre, schedule@, ScheduleEntry::Separator, lz, pk); assert(e_other(pre, ScheduleEntry::Separator) =~= Seq::<int>::empty()); '
+                   'assert(other_ops(pre, schedule@) + Seq::<int>::empty() =~= other_ops(pre, schedule@)); } ' + cs.body[st:])
+        cs.spec_inserts += 1
+    # ---- L3 over the chains
+    cs.loop('for chain_idx in 0..chains.len()', invariants=[
+        ('ctx', SCTX), ('book', BOOK), ('row', ROW),
+        ('horner_ops_so_far', 'chain_ops(pre, schedule@) == flat(chains@.take(chain_idx as int))'),
+        ('first_chain_follows_separator_row', 'chain_idx == 0 ==> last_lane0(schedule@, lz) is Separator'),
+    ])
+    cs.before('for chain_idx in 0..chains.len()', 'proof { assert(chains@.take(0) =~= Seq::<Vec<usize>>::empty()); }')
+    # ---- L4 inside one chain
+    cs.loop('while i', invariants=[
+        ('ctx', SCTX), ('book', BOOK), ('row', ROW),
+        ('chain', 'chain_idx < chains@.len() && chain@ == chains@[chain_idx as int]@ && i <= chain@.len() && run_ok(pre, chain@)'),
+        ('horner_ops_so_far', 'chain_ops(pre, schedule@) == flat(chains@.take(chain_idx as int)) + ints(chain@).take(i as int)'),
+        ('previous_row', '(i == 0 ==> last_lane0(schedule@, lz) is Separator) && (i > 0 ==> is_chain_entry(pre, last_lane0(schedule@, lz)) && last_op(last_lane0(schedule@, lz)) == chain@[i - 1])'),
+    ], decreases='chain@.len() - i')
+    cs.before('let mut i = 0; while i', 'proof { assert(ints(chain@).take(0) =~= Seq::<int>::empty()); assert(flat(chains@.take(chain_idx as int)) + Seq::<int>::empty() =~= flat(chains@.take(chain_idx as int))); }')
+    # ---- L5 / L6: the packing search
+    cs.before('let mut k = k_try; while k >= 2', 'proof { assert(chain@.len() <= nn) by { assert(chain@[chain@.len() - 1] == chain@[0] + (chain@.len() - 1)); } }')
+    cs.loop('while k >= 2', invariants=[
+        ('ctx', 'chain@.len() <= nn && nn < 0x1_0000_0000 && pre == preprocessed@ && plw == NPREP && i < chain@.len() && k <= k_try && k_try <= chain@.len() - i && k_try <= pack_k && run_ok(pre, chain@) && nn == n_ops(pre)'),
+    ], invariant_except_break=[('none_yet', 'best_k == 1')],
+       ensures=[('found', 'best_k == 1 || (2 <= best_k <= k_try && (forall|p: int| i < p < i + best_k ==> (#[trigger] chain@[p]) == chain@[i as int] + (p - i)) '
+                          '&& (forall|p: int| i <= p < i + best_k ==> b_of(pre, (#[trigger] chain@[p]) as int) == b_of(pre, chain@[i as int] as int)))')],
+       decreases='k')
+    cs.loop('while j < k', invariants=[
+        ('ctx', 'chain@.len() <= nn && 1 <= j <= k && k <= chain@.len() - i && i < chain@.len() && run_ok(pre, chain@) && nn == n_ops(pre) && nn < 0x1_0000_0000'),
+        ('prefix', 'contiguous ==> forall|p: int| i < p < i + j ==> (#[trigger] chain@[p]) == chain@[i as int] + (p - i)'),
+    ], ensures=[('all', 'contiguous ==> forall|p: int| i < p < i + k ==> (#[trigger] chain@[p]) == chain@[i as int] + (p - i)')], decreases='k - j')
+    # ---- the push of one Horner entry
+    cs.before('if best_k >= 2 { schedule.push(ScheduleEntry::PackedHorner(chain[i], best_k));', """let ghost s_p = schedule@; let ghost i0 = i as int;
+                let ghost e_new = if best_k >= 2 { ScheduleEntry::PackedHorner(chain@[i0], best_k) } else { ScheduleEntry::Op(chain@[i0]) };
+                proof {
+                    assert(is_h(pre, chain@[i0] as int));
+                    let adv: int = if best_k >= 2 { best_k as int } else { 1 };
+                    assert forall|p: int| i0 <= p < i0 + adv implies (#[trigger] chain@[p]) == chain@[i0] + (p - i0) by { assert(chain@[p] == chain@[0] + p); assert(chain@[i0] == chain@[0] + i0); }
+                    assert(e_chain(pre, e_new) =~= ints(chain@).subrange(i0, i0 + adv));
+                    assert(ints(chain@).take(i0) + ints(chain@).subrange(i0, i0 + adv) =~= ints(chain@).take(i0 + adv));
+                    assert(e_other(pre, e_new) =~= Seq::<int>::empty());
+                    if best_k >= 2 {
+                        assert(chain@[i0] + best_k <= n_ops(pre)) by { assert(chain@[i0 + best_k - 1] < n_ops(pre)); }
+                        assert forall|jj: int| 0 <= jj < best_k implies #[trigger] b_of(pre, chain@[i0] + jj) == b_of(pre, chain@[i0] as int) by { let p = i0 + jj; assert(chain@[p] == chain@[i0] + (p - i0)); assert(b_of(pre, chain@[p] as int) == b_of(pre, chain@[i0] as int)); }
+                    }
+                    if i0 > 0 { assert(chain@[i0] == chain@[i0 - 1] + 1) by { assert(chain@[i0] == chain@[0] + i0); assert(chain@[i0 - 1] == chain@[0] + (i0 - 1)); } }
+                    lemma_push_chain_entry(pre, s_p, e_new, lz, pk);
+                    lemma_push_ops(pre, s_p, e_new);
+                    assert(other_ops(pre, s_p) + Seq::<int>::empty() =~= other_ops(pre, s_p));
+                    assert((flat(chains@.take(chain_idx as int)) + ints(chain@).take(i0)) + ints(chain@).subrange(i0, i0 + adv) =~= flat(chains@.take(chain_idx as int)) + ints(chain@).take(i0 + adv));
+                }""")
+    # ---- end of one chain
+    cs.at_loop_end('for chain_idx in 0..chains.len()', """proof {
+                lemma_flat_take(chains@, chain_idx as int);
+                assert(ints(chain@).take(chain@.len() as int) =~= ints(chain@));
+            }""")
+    # ---- L7: the remaining ordinary operations
+    i7 = cs._loop_open('while nc')
+    cs.body = cs.body[:i7 + 1] + ' let ghost s_l7 = schedule@; let ghost n_l7 = nc; ' + cs.body[i7 + 1:]
+    cs.at_loop_end('while nc', """proof {
+                let x = non_chain@[n_l7 as int];
+                lemma_push_plain(pre, s_l7, ScheduleEntry::Op(x), lz, pk);
+                assert(e_other(pre, ScheduleEntry::Op(x)) =~= seq![x as int]);
+                assert(ints(non_chain@).take(n_l7 as int) + seq![x as int] =~= ints(non_chain@).take(n_l7 as int + 1));
+                assert(schedule@ =~= s_l7.push(ScheduleEntry::Op(x))); // @@A:remaining_ops_appended_one_by_one
+            }""")
+    cs.loop('while nc', invariants=[
+        ('ctx', SCTX), ('book', BOOK),
+        ('all_horner_ops_placed', 'chain_ops(pre, schedule@) == hs_upto(pre, nn)'),
+    ], decreases='non_chain@.len() - nc')
+    cs.before('while nc', 'proof { assert(chains@.take(chains@.len() as int) =~= chains@); }')
+    cs.bind_tail('r_', 'proof { assert(ints(non_chain@).take(non_chain@.len() as int) =~= ints(non_chain@)); assert(is_h(pre, w_) && 0 <= w_ < n_ops(pre)); }')
+    return u_done(u, cs, SCTX, BOOK)
+
+
+def u_done(u, cs, SCTX, BOOK):
+    rl = u.extract('circuit-prover/src/common.rs', '', 'reduce_lanes_if_dummy', 'reduce_lanes_if_dummy')
+    rl.sig_rewrite('R11', 'table: &str,', 'table: &TableName,')
+    rl.erase_macro('tracing::warn!')
+    rl.ensures('one_lane_for_dummy_tables_otherwise_unchanged', 'ret == (if only_dummy && configured_lanes > 1 { 1 } else { configured_lanes as int })')
+    u.text('verus! {\npub struct TableName { pub _p: () }')
+    u.emit(rl)
     u.emit(u.fill_fn)
     u.emit(cs)
     u.text('}')
